@@ -294,7 +294,15 @@ def prod_isolation(e, tier="quick", ops=None):
 
 
 HISTORIES = ["open_add", "alloc", "claim", "open_add_sweep", "alloc_sweep_claim", "open_close_other",
-             "claim_list_open_close", "claim_list_release", "list_other_app", "alloc_claim"]
+             "claim_list_open_close", "claim_list_release", "list_other_app", "alloc_claim", "any2", "any3",
+             "any2_sweep", "any3_sweep"]
+
+# (allocate is left to the dedicated histories: its nine-way scan squares the path count of a session)
+SESSION_ALPHABET = ["claim", "list", "open", "add", "release", "close"]
+
+
+class Bundle_:
+    pass
 
 
 def run_history(x, kind, sy):
@@ -302,7 +310,12 @@ def run_history(x, kind, sy):
     after the pre-state was loaded, through the real handlers, identically in both runs.  `sy` holds
     the symbols shared by both runs."""
     w, e = x.w, x.e
-    b = w.bundles[0]
+    if w.bundles:
+        b = w.bundles[0]
+    else:
+        # empty pre-state (generic sessions): the session's app and mailbox are free symbols
+        b = Bundle_()
+        b.app, b.mid = sy["g.app"], sy["g.mid"]
     w.phase = "history"
 
     def conn(label, app, side):
@@ -360,6 +373,52 @@ def run_history(x, kind, sy):
         else:
             w.deliver(g, w.msg("release"))
         w.disconnect(g)
+    elif kind in ("any2", "any3", "any2_sweep", "any3_sweep"):
+        # a generic session: one connection binds and sends 2 (3) commands chosen freely from the
+        # alphabet; identifiers are the ones it was told (allocated nameplate, claimed mailbox), a free
+        # symbolic name, or the mailbox of bundle 0
+        n = 3 if kind.startswith("any3") else 2
+        g = conn("gA", b.app, sy["g.side"])
+        # the second run of the product repeats the choices (and symbols) of the first
+        plan = sy.setdefault("_plan", [])
+        replaying = sy.get("_plan_done", False)
+        pos = [0]
+
+        def pick(k, label):
+            if replaying:
+                v = plan[pos[0]]
+            else:
+                v = e.choose(k, label)
+                plan.append(v)
+            pos[0] += 1
+            return v
+
+        def shared_bool(label):
+            key = "_bool_" + label
+            if key not in sy:
+                sy[key] = e.sym_bool(label)
+            return sy[key]
+        for i in range(n):
+            cmd = SESSION_ALPHABET[pick(len(SESSION_ALPHABET), "session%d" % i)]
+            told_np = [r["frame"].get("nameplate") for r in g.frames if r["frame"].get("type") == "allocated"]
+            told_mb = [r["frame"].get("mailbox") for r in g.frames if r["frame"].get("type") == "claimed"]
+            if cmd == "claim":
+                names = [sy["h.name"]] + told_np[:1]
+                w.deliver(g, w.msg("claim", nameplate=names[pick(len(names), "which-name")]))
+            elif cmd == "open":
+                ids = ([b.mid] if w.bundles else []) + [sy["g.mid"]] + told_mb[:1]
+                w.deliver(g, w.msg("open", mailbox=ids[pick(len(ids), "which-mailbox") % len(ids)]))
+            elif cmd == "add":
+                w.deliver(g, w.msg("add", phase=sy["g.phase"], body=sy["g.body"]))
+            elif cmd == "close":
+                w.deliver(g, w.msg("close", mood=(shared_bool("g.has_mood%d" % i), sy["g.phase"])))
+            else:
+                w.deliver(g, w.msg(cmd))
+        sy["_plan_done"] = True
+        w.disconnect(g)
+        if kind.endswith("_sweep"):
+            w.clock.last = w.clock.last + z3.RealVal(TAP_E()) + 1
+            w.expire()
     elif kind == "list_other_app":
         # somebody of another application looks at its listing and asks for a nameplate
         e.assume(sy["g.app"].z != b.app.z)
@@ -388,13 +447,15 @@ def prod_restart(e, tier="quick", ops=None, histories=None):
     memory), run Y rebuilds it from the store.  The same command from a fresh connection must yield
     the same frames, the same store and the same connection state in both."""
     bd = dict(bounds(tier))
-    bd["K"] = 1 if tier == "quick" else 2        # the history adds rows of its own
+    bd["K"] = 1        # the history adds rows of its own (K=2 did not finish within 40 minutes)
     c04 = None
     ops = ops or [o for o in OPS if o not in ("bind2", "disconnect")]
     op = ops[e.choose(len(ops), "op")]
     cmd = make_cmd(e, op)
     hl = histories or HISTORIES
     hist = hl[e.choose(len(hl), "history")]
+    if hist.startswith("any"):
+        bd["K"] = 0    # generic sessions start from the empty store
     sy = {k: e.sym_str(k) for k in ("g.side", "h.side", "h.name", "g.phase", "g.body", "g.mid", "g.app")}
     crowd = 0
     xa = build(e, crowd=crowd, acting=["none"], others=["none"], **bd)
